@@ -1,6 +1,6 @@
 (* C08 - Position hash depends only on board, side to move, step and push/pull status. *)
 From Coq Require Import NArith List Bool.
-From Arimaa Require Import Types U64 Board Zobrist Engine Cells XorFold Hash.
+From Arimaa Require Import Types U64 Board Zobrist Engine Cells XorFold Hash Invariant HashInv Setup Reach.
 Open Scope N_scope.
 
 (* the from-scratch hash of a well-formed board is a function of its 64 cells, the side and the step:
@@ -9,3 +9,44 @@ Theorem C08_from_scratch_is_cellwise : forall b sd stp, WFb b ->
   z_from_piece_board b sd stp = N.lxor (header_part sd stp) (board_part b).
 Proof. exact z_from_piece_board_spec. Qed.
 Print Assumptions C08_from_scratch_is_cellwise.
+
+(* every reachable play-phase state - whatever placements, steps, captures and passes produced it - carries the
+   from-scratch hash of its board, side and step *)
+Theorem C08_inv : forall s pp, Reach s -> ph s = PlayPhase pp ->
+  hash s = z_from_piece_board (board s) (side s) (step_of pp).
+Proof. intros s pp R P. exact (hi_hash s pp (reach_play s pp R P)). Qed.
+Print Assumptions C08_inv.
+
+Theorem C08_transposition_hash : forall s pp, Reach s -> ph s = PlayPhase pp ->
+  transposition_hash s = N.lxor (z_from_piece_board (board s) (side s) (step_of pp))
+                                (match pstate pp with
+                                 | MustCompletePush sq k => push_piece_value sq k
+                                 | PossiblePull sq k => pull_piece_value sq k
+                                 | PPNone => 0 end).
+Proof. intros s pp R P. exact (transposition_hash_from_scratch s pp (reach_play s pp R P)). Qed.
+Print Assumptions C08_transposition_hash.
+
+(* the incremental update of one step / one pass *)
+Theorem C08_move_update : forall b nb sd nsd cs ns, WFb b -> WFb nb ->
+  z_move_piece (z_from_piece_board b sd cs) sd b cs nb ns nsd = z_from_piece_board nb nsd ns.
+Proof. exact z_move_piece_spec. Qed.
+Print Assumptions C08_move_update.
+
+Theorem C08_pass_update : forall b sd cs, WFb b -> z_pass (z_from_piece_board b sd cs) cs = z_from_piece_board b (negb sd) 0.
+Proof. exact z_pass_spec. Qed.
+Print Assumptions C08_pass_update.
+
+(* a finished setup is a start position: play phase, step 0, hash = from-scratch hash, history = [hash] -
+   exactly what parsing the same position from text yields *)
+Theorem C08_setup_end : forall s k, SetupInv s 31 ->
+  exists h, ph (place s k) = PlayPhase (play_initial h (h :: nil)) /\ h = hash (place s k) /\ side (place s k) = true /\
+            move_no (place s k) = 2 /\ HashInv (place s k) (play_initial h (h :: nil)).
+Proof. intros s k Inv. exact (place_last s 31 k Inv eq_refl). Qed.
+Print Assumptions C08_setup_end.
+
+(* same board (as cells), side and step => the states compare equal and hash equal *)
+Theorem C08_eq : forall s pp s' pp', HashInv s pp -> HashInv s' pp' ->
+  (forall i, i < 64 -> cell (board s) i = cell (board s') i) -> side s = side s' -> step_of pp = step_of pp' ->
+  state_eqb s s' = true /\ hash s = hash s'.
+Proof. exact same_position_equal. Qed.
+Print Assumptions C08_eq.
